@@ -38,6 +38,10 @@ func vTry(f func()) bool
 func vNote(s string)
 func vUFBytes(name string, in []byte, outLen int) []byte
 func vSupportSweep(label string, e []byte, w int)
+func vBufClone(b []byte) []byte
+func vWatchOff()
+func vWatchOn()
+func vWatchHits() int
 `
 
 func APISymbolic(pkgName string) []byte {
@@ -198,6 +202,10 @@ func vTry(f func()) (panicked bool) {
 	return false
 }
 func vNote(s string) {}
+func vBufClone(b []byte) []byte { return append([]byte(nil), b...) }
+func vWatchOff()                {}
+func vWatchOn()                 {}
+func vWatchHits() int           { return 1 }
 func vSupportSweep(label string, e []byte, w int) {
 	nz := 0
 	for _, x := range e {
